@@ -69,6 +69,12 @@ var renderings = map[int][]rendering{
 		{"[::1", `for="[::1"`, "", ""},
 		{"8.8.8.8 9.9.9.9", "for=", "", ""},
 		{"g::1", "by=1.1.1.1", "", ""},
+		{"\"", "for=\"", "", ""},
+		{"[", "for=\"\"", "", ""},
+		{"]", "for=[", "", ""},
+		{"[]", "for=\"[\"", "", ""},
+		{"1.1.1.1.1", "for=\"]\"", "", ""},
+		{"::ffff:", "for=;for=8.8.8.8", "", ""},
 	},
 	6: { // unspec
 		{"0.0.0.0", "for=0.0.0.0", "", ""},
@@ -313,10 +319,18 @@ func checkC18(r *Run) {
 	// remote address resolver and never-panic on junk
 	rng := rand.New(rand.NewSource(r.Seed))
 	ra := clientip.NewRemoteAddr()
-	for i := 0; i < 2000; i++ {
-		b := make([]byte, rng.Intn(24))
-		for k := range b {
-			b[k] = "0123456789abcdef.:[]%, ;=\"for\t"[rng.Intn(30)]
+	for i := 0; i < pick(r, 6000, 60000); i++ {
+		var b []byte
+		if i%2 == 0 {
+			b = make([]byte, rng.Intn(24))
+			for k := range b {
+				b[k] = "0123456789abcdef.:[]%, ;=\"for\t"[rng.Intn(30)]
+			}
+		} else { // token soup: the pieces parsers special-case, in every order
+			toks := []string{"for=", "\"", "[", "]", ";", ",", "by=", "1.2.3.4", ":", "%", " ", "::1", "=", "For=", "80"}
+			for n := rng.Intn(6); n > 0; n-- {
+				b = append(b, toks[rng.Intn(len(toks))]...)
+			}
 		}
 		for _, hdr := range []string{"X-Forwarded-For", "Forwarded"} {
 			for _, res := range []fox.ClientIPResolver{setups[hdr].rtc[0], setups[hdr].rnp[0], setups[hdr].rtr[1], setups[hdr].lnp[0][2], setups[hdr].chain, ra} {
